@@ -201,8 +201,8 @@ CLAIMED = {
             "C text and kernel-checked + correspondence against standard-derived Lean specs",
             "Proved in Lean for the models (which mirror the C control flow and are executed on every line): the Reset/Input/Result code of "
             "sha224-256.c and sha384-512.c (one parametric model) and blake2s-ref.c init/init_key/update/final equal the one-shot FIPS 180-4 / "
-            "RFC 7693 definitions for every message length and every chunking (SHA-384/512 below 2^96 bits: the compiled counter test fires "
-            "there, finding C14-ext-1); HMAC for all key lengths, the counter KDF/MGF for all output lengths, expand_message_xmd over all four "
+            "RFC 7693 definitions for every message length the standards admit and every chunking (the counter test of sha384-512.c "
+            "fires exactly at a wrap of the 128-bit counter, fixed by 91cb094, C14-ext-1); HMAC for all key lengths, the counter KDF/MGF for all output lengths, expand_message_xmd over all four "
             "SHA streams incl. its abort conditions equal their standards; FIPS 197 InvCipher inverts Cipher for every key size, key and block "
             "(S-box bijection over 256 entries, ShiftRows, MixColumns via GF(2^8) linearity, any round-key list); the word-level mirror of "
             "rijndaelKeySetupEnc + rijndaelEncrypt over the tables extracted from the C text equals FIPS 197 KeyExpansion + Cipher for every "
